@@ -114,6 +114,8 @@ def run(ctx):
     ]
 
     # ---- 1. regenerate the model + translator self-check --------------------------------------
+    numeric.regen(ctx, "astronomy")   # the latitude-loop theorems (P_LatLoop) are stated on Gen_orbital
+    numeric.regen(ctx, "orbital")
     tr, defs = numeric.regen(ctx, "geoloc")
     if tr is not None:
         def gen_env(r):
